@@ -174,7 +174,7 @@ def gate(R):
     gq = q + '._regular'
     gg = R.cfg(gq)
     rc = calls_to(R, gg, S + '._regular')
-    ok = len(rc) == 1 and match_exact(guard_atom_sets(gg, rc[0][0]), [{('self._ready', True)}])
+    ok = len(rc) == 1 and match_exact(guard_atom_sets(gg, rc[0][0], within=rc[0][1]), [{('self._ready', True)}])
     R.ob('C07.gate', 'closure gated on _ready', ok, 'self._regular() not gated on self._ready alone', func=gq,
          node=(rc[0][1] if rc else None), construct='_ready gate')
 
